@@ -420,167 +420,146 @@ func ruleGossipVerdict(c *Ctx) {
 			}
 			return nil
 		}
+		// Every verdict return is judged by the conditions that lead to it in the control-flow graph, not by the
+		// statement it is nested in: the tests (blocks with two successors; go/cfg splits a && b and a || b into one
+		// block per operand) from which an edge reaches the return's block through blocks that do not branch. An
+		// early return, an inverted test with the refusal after the `if`, an else branch, a case of a switch all give
+		// the same edges. ACCEPT must be dominated by every test that governs a refusal (no accepting path skips one).
 		nret := 0
-		var lastRet *ast.ReturnStmt
-		ast.Inspect(g.fd.Body, func(n ast.Node) bool {
-			if _, ok := n.(*ast.FuncLit); ok {
-				return false
+		gr := cfg.New(g.fd.Body, func(*ast.CallExpr) bool { return true })
+		type vret struct {
+			blk *cfg.Block
+			r   *ast.ReturnStmt
+			v   string
+		}
+		var rets []vret
+		for _, b := range gr.Blocks {
+			if !b.Live || len(b.Nodes) == 0 {
+				continue
 			}
-			if r, ok := n.(*ast.ReturnStmt); ok {
-				if lastRet == nil || r.Pos() > lastRet.Pos() {
-					lastRet = r
+			if r, ok := b.Nodes[len(b.Nodes)-1].(*ast.ReturnStmt); ok {
+				if v := verdictOf(info, r); v != "" {
+					rets = append(rets, vret{b, r, v})
 				}
 			}
-			return true
-		})
+		}
+		preds := map[*cfg.Block][]*cfg.Block{}
+		for _, b := range gr.Blocks {
+			for _, sx := range b.Succs {
+				preds[sx] = append(preds[sx], b)
+			}
+		}
+		condOf := func(b *cfg.Block) ast.Expr {
+			if len(b.Succs) != 2 || len(b.Nodes) == 0 {
+				return nil
+			}
+			e, _ := b.Nodes[len(b.Nodes)-1].(ast.Expr)
+			return e
+		}
+		// governing tests of a block: walk predecessors through non-branching blocks
+		governors := func(target *cfg.Block) (govs []*cfg.Block, unconditional bool) {
+			seen := map[*cfg.Block]bool{}
+			var walk func(b *cfg.Block)
+			walk = func(b *cfg.Block) {
+				if seen[b] {
+					return
+				}
+				seen[b] = true
+				if b == gr.Blocks[0] && len(preds[b]) == 0 {
+					unconditional = true
+				}
+				for _, p := range preds[b] {
+					if !p.Live {
+						continue
+					}
+					if condOf(p) != nil {
+						dup := false
+						for _, gq := range govs {
+							if gq == p {
+								dup = true
+							}
+						}
+						if !dup {
+							govs = append(govs, p)
+						}
+						continue
+					}
+					walk(p)
+				}
+			}
+			walk(target)
+			return
+		}
+		// dominators (iterative)
+		dom := map[*cfg.Block]map[*cfg.Block]bool{}
+		var live []*cfg.Block
+		for _, b := range gr.Blocks {
+			if b.Live {
+				live = append(live, b)
+			}
+		}
+		for _, b := range live {
+			dom[b] = map[*cfg.Block]bool{}
+			if b == gr.Blocks[0] {
+				dom[b][b] = true
+			} else {
+				for _, x := range live {
+					dom[b][x] = true
+				}
+			}
+		}
+		for changed := true; changed; {
+			changed = false
+			for _, b := range live {
+				if b == gr.Blocks[0] {
+					continue
+				}
+				nd := map[*cfg.Block]bool{}
+				first := true
+				for _, p := range preds[b] {
+					if !p.Live {
+						continue
+					}
+					if first {
+						for x := range dom[p] {
+							nd[x] = true
+						}
+						first = false
+					} else {
+						for x := range nd {
+							if !dom[p][x] {
+								delete(nd, x)
+							}
+						}
+					}
+				}
+				nd[b] = true
+				if len(nd) != len(dom[b]) {
+					dom[b] = nd
+					changed = true
+				}
+			}
+		}
+		refusalGovs := map[*cfg.Block]bool{}
 		perFn := map[string]int{}
-		ast.Inspect(g.fd.Body, func(n ast.Node) bool {
-			if _, ok := n.(*ast.FuncLit); ok {
-				return false
-			}
-			r, ok := n.(*ast.ReturnStmt)
-			if !ok {
-				return true
-			}
-			v := verdictOf(info, r)
-			if v == "" {
-				return true
+		sort.Slice(rets, func(i, j int) bool { return rets[i].r.Pos() < rets[j].r.Pos() })
+		for _, vr := range rets {
+			if vr.v == "ACCEPT" {
+				continue
 			}
 			nret++
-			// governing if
-			var ifs *ast.IfStmt
-			inElse := false
-			var cur ast.Node = r
-			for p := parents[cur]; p != nil; cur, p = p, parents[p] {
-				// a case of a switch governs like the equivalent if / else-if / else
-				if cc, ok := p.(*ast.CaseClause); ok {
-					if sw, ok := parents[parents[cc]].(*ast.SwitchStmt); ok {
-						var cond ast.Expr
-						for _, e := range cc.List {
-							ce := e
-							if sw.Tag != nil {
-								ce = &ast.BinaryExpr{X: sw.Tag, Op: token.EQL, Y: e, OpPos: e.Pos()}
-							}
-							if cond == nil {
-								cond = ce
-							} else {
-								cond = &ast.BinaryExpr{X: cond, Op: token.LOR, Y: ce, OpPos: e.Pos()}
-							}
-						}
-						ifs = &ast.IfStmt{If: cc.Pos(), Init: sw.Init, Cond: cond, Body: &ast.BlockStmt{Lbrace: cc.Colon, List: cc.Body, Rbrace: cc.End()}}
-						if cond == nil {
-							inElse = true
-							ifs.Cond = &ast.Ident{NamePos: cc.Pos(), Name: "default"}
-						}
-						break
-					}
-				}
-				if i2, ok := p.(*ast.IfStmt); ok {
-					if cur == ast.Node(i2.Body) {
-						ifs = i2
-						break
-					}
-					if cur == i2.Else {
-						if _, isBlock := cur.(*ast.BlockStmt); isBlock {
-							ifs = i2
-							inElse = true
-							break
-						}
-						// else-if: cur is an IfStmt handled on its own
-					}
-				}
-			}
-			if v == "ACCEPT" {
-				key := fn + ".ACCEPT"
-				if ifs != nil || r != lastRet {
-					c.bad(key, r.Pos(), "ACCEPT is returned from inside a branch / before the end of the validator: conditions that follow are skipped")
-				} else {
-					c.ok(key, r.Pos(), "ACCEPT is the final, unconditional return")
-				}
-				return true
-			}
-			if ifs == nil {
-				c.bad(fn+".unconditional-"+v, r.Pos(), "unconditional %s return", v)
-				return true
+			govs, uncond := governors(vr.blk)
+			if len(govs) == 0 || (uncond && len(govs) == 0) {
+				c.bad(fn+".unconditional-"+vr.v, vr.r.Pos(), "unconditional %s return", vr.v)
+				continue
 			}
 			var names []string
-			if inElse {
-				names = []string{"else"}
-			} else {
-				names = classify(ifs.Cond, ifs.Pos())
-				if ifs.Init != nil {
-					if as, ok := ifs.Init.(*ast.AssignStmt); ok && len(as.Rhs) == 1 {
-						if call, ok := ast.Unparen(as.Rhs[0]).(*ast.CallExpr); ok {
-							// the condition tests a variable defined here; classify by which
-							nm := calleeLabel(info, call)
-							tested := classify(ifs.Cond, ifs.End())
-							_ = tested
-							switch nm {
-							case "InSubtree":
-								names = nil
-								for i, l := range as.Lhs {
-									if id, ok := l.(*ast.Ident); ok && mentions(info, ifs.Cond, info.Defs[id]) {
-										if i == 0 {
-											names = append(names, "InSubtree.unknown")
-										} else {
-											names = append(names, "InSubtree.in")
-										}
-									}
-								}
-							case "ValidateAggregateSelectionProof":
-								names = nil
-								for _, l := range as.Lhs {
-									if id, ok := l.(*ast.Ident); ok && mentions(info, ifs.Cond, info.Defs[id]) {
-										if isErrorT(info.Defs[id].Type()) {
-											names = append(names, nm+".err")
-										} else {
-											names = append(names, nm+".valid")
-										}
-									}
-								}
-							default:
-								if len(names) == 0 || true {
-									names = append([]string{nm}, classifyArgsOnly(names)...)
-								}
-							}
-						}
-					}
-				}
-			}
-			// else-if chains: `else if !inSubtree` where the variable was defined in the head's init
-			if len(names) == 0 {
-				// walk up the chain to find an init that defines a tested variable
-				for p := parents[ast.Node(ifs)]; p != nil; p = parents[p] {
-					head, ok := p.(*ast.IfStmt)
-					if !ok {
-						break
-					}
-					if as, ok := head.Init.(*ast.AssignStmt); ok && len(as.Rhs) == 1 {
-						if call, ok := ast.Unparen(as.Rhs[0]).(*ast.CallExpr); ok {
-							nm := calleeLabel(info, call)
-							for i, l := range as.Lhs {
-								if id, ok := l.(*ast.Ident); ok && mentions(info, ifs.Cond, info.Defs[id]) {
-									switch nm {
-									case "InSubtree":
-										if i == 0 {
-											names = append(names, "InSubtree.unknown")
-										} else {
-											names = append(names, "InSubtree.in")
-										}
-									case "ValidateAggregateSelectionProof":
-										if isErrorT(info.Defs[id].Type()) {
-											names = append(names, nm+".err")
-										} else {
-											names = append(names, nm+".valid")
-										}
-									default:
-										names = append(names, nm)
-									}
-								}
-							}
-						}
-					}
-				}
+			var condTexts []string
+			for _, gb := range govs {
+				refusalGovs[gb] = true
+				ce := condOf(gb)
+				names = append(names, classify(ce, ce.Pos())...)
+				condTexts = append(condTexts, truncate(types.ExprString(ce), 50))
 			}
 			// decide
 			cls := ""
@@ -594,13 +573,14 @@ func ruleGossipVerdict(c *Ctx) {
 					}
 				}
 			}
-			perFn[v]++
-			key := fmt.Sprintf("%s.%s[%s]", fn, v, strings.Join(dedup(names), ","))
+			perFn[vr.v]++
+			key := fmt.Sprintf("%s.%s[%s]", fn, vr.v, strings.Join(dedup(names), ","))
+			v, r := vr.v, vr.r
 			switch {
 			case cls == "":
 				unclassified++
-				// comparisons of message fields / unclassified helpers: any refusal is acceptable, ACCEPT is not (handled above)
-				c.ok(key, r.Pos(), "refusal governed by %s (no tabled outcome: either refusal class admitted)", condStr(ifs, inElse))
+				// comparisons of message fields / unclassified helpers: any refusal is acceptable, ACCEPT is not (handled below)
+				c.ok(key, r.Pos(), "refusal governed by %s (no tabled outcome: either refusal class admitted)", strings.Join(condTexts, " / "))
 			case cls == clsTiming && v != "IGNORE":
 				c.bad(key, r.Pos(), "outcome %s is a timing/availability condition an honest sender can fail; the p2p spec tags it [IGNORE], the validator returns %s", used, v)
 			case cls == clsValidity && v != "REJECT":
@@ -608,8 +588,71 @@ func ruleGossipVerdict(c *Ctx) {
 			default:
 				c.ok(key, r.Pos(), "%s -> %s (%s)", used, v, cls)
 			}
-			return true
-		})
+		}
+		// ACCEPT: a test that decides whether THIS accept is reached (exactly one of its two edges can lead to it) must
+		// on its other edge lead to no accept at all — it is then a test whose failure refuses. A test whose other
+		// edge goes on to another ACCEPT lets some messages be accepted without the checks that follow.
+		canReach := func(from, to *cfg.Block) bool {
+			seen := map[*cfg.Block]bool{}
+			var walk func(b *cfg.Block) bool
+			walk = func(b *cfg.Block) bool {
+				if b == to {
+					return true
+				}
+				if seen[b] {
+					return false
+				}
+				seen[b] = true
+				for _, sx := range b.Succs {
+					if walk(sx) {
+						return true
+					}
+				}
+				return false
+			}
+			return walk(from)
+		}
+		var accepts []*cfg.Block
+		for _, vr := range rets {
+			if vr.v == "ACCEPT" {
+				accepts = append(accepts, vr.blk)
+			}
+		}
+		for _, vr := range rets {
+			if vr.v != "ACCEPT" {
+				continue
+			}
+			nret++
+			key := fn + ".ACCEPT"
+			var culprit ast.Expr
+			for _, b := range live {
+				ce := condOf(b)
+				if ce == nil {
+					continue
+				}
+				r0, r1 := canReach(b.Succs[0], vr.blk), canReach(b.Succs[1], vr.blk)
+				if r0 == r1 {
+					continue
+				}
+				other := b.Succs[0]
+				if r0 {
+					other = b.Succs[1]
+				}
+				for _, a := range accepts {
+					if canReach(other, a) && (culprit == nil || ce.Pos() < culprit.Pos()) {
+						culprit = ce
+					}
+				}
+			}
+			if culprit != nil {
+				c.bad(key, vr.r.Pos(), "ACCEPT is returned from inside a branch / before the end of the validator: the test `%s` sends some messages to this ACCEPT and lets the others go on to further conditions, which the accepted ones skip", truncate(types.ExprString(culprit), 60))
+			} else {
+				c.ok(key, vr.r.Pos(), "every test that decides whether this ACCEPT is reached refuses on its other side")
+			}
+		}
+		_ = dom
+		_ = refusalGovs
+		_ = parents
 		c.stat("verdict_returns", nret)
 	}
 	c.stat("unclassified_conditions", unclassified)
